@@ -327,8 +327,10 @@ def derive(tree, k, pattern):
         return xs
     if pattern == "self":
         xs = [tree, R.flip_top(tree)]
-        if k == 3:
+        if k >= 3:
             xs.append(R.orient(tree, lambda p: "i"))
+        if k >= 4:
+            xs.append(R.orient(R.reorder(R.subflip(tree)), lambda p: "i"))
         return xs
     ports = list(R.port_dirs(tree))
     owner = {p: i % k for i, p in enumerate(ports)}
@@ -570,6 +572,113 @@ def part_connect(tree, out, variations, all_perm_sims=False):
             out.viol(f"connect:{vname}:{c}:{step}:{ename(e)}", f"connect of {vname} over {c}: {step} raised {e!r}", tree, "connect")
 
 
+CM_MODES = {3: ("plain", "flip", "flipped"), 4: ("flip", "plain", "flipped", "pure")}
+
+
+def part_constmix(tree, out, ks=(3, 4), all_leaves=False, sims=True):
+    """connect() of 3 and 4 interfaces (per leaf: one output side, 2..3 input sides) in EVERY argument order, where one
+    leaf element at a time holds constants in every combination: output Signal|Const(v); each input Signal | Const(v)
+    (matching) | Const(v') (mismatching). Oracle from the documentation of connect(): a constant input requires a
+    constant output of the same value (else ConnectionError, nothing added); a matching constant input is not
+    assigned; every signal input is assigned the single output (signal or constant); nothing depends on the order."""
+    from amaranth.hdl import Module, Const, Shape, Value
+    from amaranth.lib import wiring as W
+    c = R.canon(tree)
+    if not R.leaves(tree):
+        return
+    for k in ks:
+        tag = f"constmix:k{k}"
+        try:
+            tp = Tuple_(derive(tree, k, "self"), CM_MODES[k])
+            vals0 = tp.leaf_values()
+        except Exception as e:
+            out.viol(f"{tag}:{c}:create:{ename(e)}", f"{tag} over {c}: creating the interfaces raised {e!r}", tree, "constmix")
+            continue
+        sel = list(tp.paths) if all_leaves else list(dict.fromkeys([tp.paths[0], tp.paths[-1]]))
+        orders = list(itertools.permutations(range(k)))
+        for p in sel:
+            o = tp.owner[p]
+            ins = [j for j in range(k) if j != o]
+            w, sg, iv = tp.info[p]
+            v, mm = to_shape(iv + 1, w, sg), to_shape(iv + 2, w, sg)
+            originals = {j: walk(tp.ifaces[j], p) for j in range(k)}
+            for okind in "SC":
+                for ikinds in itertools.product("SCM", repeat=k - 1):
+                    combo = "o" + okind + "," + ",".join("i%d%s" % (j, kd) for j, kd in zip(ins, ikinds))
+                    where = ".".join(str(x) for x in p)
+                    out.add("evaluations")
+                    out.add("constmix_cases")
+                    consts = {}
+                    try:
+                        if okind == "C":
+                            put(tp.ifaces[o], p, Const(v, Shape(w, sg)))
+                            consts[(o, p)] = mask(v, w)
+                        for j, kd in zip(ins, ikinds):
+                            if kd != "S":
+                                val = v if kd == "C" else mm
+                                put(tp.ifaces[j], p, Const(val, Shape(w, sg)))
+                                consts[(j, p)] = mask(val, w)
+                        error = any(kd != "S" for kd in ikinds) and (okind == "S" or "M" in ikinds)
+                        vals = [dict(d) for d in vals0]
+                        for j in range(k):
+                            vals[j][p] = Value.cast(walk(tp.ifaces[j], p))
+                        idmap = {id(vals[j][q]): (j, q) for j in range(k) for q in tp.paths if (j, q) not in consts}
+                        want = None if error else expected_map(tp, consts)
+                        out.add("constmix_expect_error" if error else "constmix_expect_accept")
+                        if not error and "C" in ikinds and "S" in ikinds:
+                            out.add("constmix_signal_input_beside_constant_input")
+                        bad = None
+                        frags = {}
+                        for order in orders:
+                            m = Module()
+                            out.add("constmix_connects")
+                            try:
+                                W.connect(m, *[tp.ifaces[j] for j in order])
+                                res = "no-error"
+                            except Exception as e:
+                                res = ename(e)
+                            if error:
+                                if res != "ConnectionError":
+                                    bad = (order, f"expected ConnectionError, got {res}")
+                                elif n_statements(m):
+                                    bad = (order, "ConnectionError raised but statements were added")
+                            else:
+                                if res != "no-error":
+                                    bad = (order, f"expected the connection to be made, got {res}")
+                                else:
+                                    frag, got, _n = stmt_map(m, idmap)
+                                    frags[order] = frag
+                                    if got != want:
+                                        bad = (order, f"input<-output assignments differ from the oracle: "
+                                                      f"{sorted(got ^ want, key=repr)[:4]}")
+                            if bad:
+                                break
+                        if not bad and not error and sims:
+                            for order in (orders[0], orders[-1]):
+                                errs = simulate(frags[order], tp, vals, consts, out)
+                                out.add("simulations")
+                                if errs:
+                                    bad = (order, f"simulation: {errs[:3]}")
+                                    break
+                        if bad:
+                            out.viol(f"{tag}:{c}:{where}:{combo}:order{''.join(map(str, bad[0]))}",
+                                     f"{tag} over {c} (interfaces i0..i{k - 1} = T, T.flip, all-input...), leaf {where} holding "
+                                     f"{combo} (S signal, C constant {v}, M constant {mm}), argument order {bad[0]}: {bad[1]}",
+                                     tree, "constmix")
+                    except Exception as e:
+                        out.viol(f"{tag}:{c}:{where}:{combo}:harness:{ename(e)}", f"{tag} over {c}: {e!r}", tree, "constmix")
+                    finally:
+                        for j in range(k):
+                            put(tp.ifaces[j], p, originals[j])
+
+
+def constmix_family(quick):
+    """small signatures for the constant-combination product (the logic under test is per leaf element)"""
+    d = D2 if quick else [(), (2,), (1, 2)]
+    levels = [dict(pd=d, sd=D2, maxm=2, max_sub=1, pair_pd=[()]), dict(pd=D2, sd=[], maxm=1)]
+    return R.structural_family(levels)
+
+
 def part_routes(tree, out, n_sims=2):
     """an object made from sig by every route, connected with an object made from sig.flip() by every route"""
     from amaranth.hdl import Module
@@ -796,6 +905,8 @@ def check_trees(task):
             part_connect(tree, out, opts["variations"], opts.get("all_perm_sims", False))
         if "routes" in opts["parts"] and (opts.get("routes_flat", True) or any(n["k"] == "s" for _, n in tree)):
             part_routes(tree, out, opts.get("route_sims", 2))
+        if "constmix" in opts["parts"]:
+            part_constmix(tree, out, opts.get("constmix_k", (3, 4)), opts.get("constmix_all_leaves", True))
         if "corrupt" in opts["parts"]:
             part_corrupt(tree, out, opts["bases"])
         if "meta" in opts["parts"] and len(R.node_paths(tree)) <= opts.get("meta_max_members", 99):
@@ -850,6 +961,13 @@ def run(rep):
             "all_perm_sims": not rep.quick, "meta_both": not rep.quick, "meta_max_members": rep.pick(2, 99)}
     # heavier trees first would need a cost model; interleave instead
     tasks = [(ch, opts) for ch in chunks(trees, 12)]
+    # constant combinations x every argument order of 3 and 4 interfaces, on a small family (per-leaf logic)
+    cm = constmix_family(rep.quick)
+    cm4 = [t for t in cm if len(t) == 1] if rep.quick else cm
+    cm_opts = {"parts": ["constmix"], "constmix_all_leaves": not rep.quick}
+    tasks += [(ch, dict(cm_opts, constmix_k=(3,))) for ch in chunks(cm, 4)]
+    tasks += [(ch, dict(cm_opts, constmix_k=(4,))) for ch in chunks(cm4, 1)]
+    rep.setcov("constmix_trees", {"k3": len(cm), "k4": len(cm4)})
     tasks = rotate(tasks, rep.seed)
     for part in pmap(check_trees, tasks, rep.procs):
         rep.merge(part)
@@ -865,6 +983,11 @@ def run(rep):
                           "port alphabet": "flow x dims x {1, signed(2), range(3), lib.enum(unsigned(2)), StructLayout(w=3)} x {default, non-zero init}",
                           "tuple variations": opts["variations"], "corruption bases": opts["bases"],
                           "metadata: trees with at most this many members (all levels)": opts["meta_max_members"],
+                          "constmix": "3 interfaces: every signature of 1..2 members (<=1 signature member, port dims %s, sub dims (),(2,)); "
+                                      "4 interfaces: %s of them; leaf elements: %s; per element all 2 x 3^(k-1) constant "
+                                      "combinations x all k! argument orders" % (
+                                          "(),(2,)" if rep.quick else "(),(2,),(1,2)", "the one-member ones" if rep.quick else "all",
+                                          "first and last" if rep.quick else "all"),
                           "metadata of sig.flip() too": "all trees" if opts["meta_both"] else
                           "trees with one member or with a signature member (not flat two-port signatures)"})
     rep.setcov("rule", "every signature tree inside `bounds` (unordered member pairs, names/insertion order alternating; port "
@@ -875,7 +998,10 @@ def run(rep):
                "(route from sig) x (route from sig.flip()) pair connected both ways and compared with the oracle map; every listed tuple variation connected, statement map compared with the oracle, simulated with every "
                "value of every output leaf, every argument permutation + keyword form; idle-* tuples where every second port member is "
                "an input on ALL interfaces (no statement for it, it keeps its init in simulation, and each width / init "
-               "corruption of it, signature- and object-level, must still raise ConnectionError); every single-point corruption (missing "
+               "corruption of it, signature- and object-level, must still raise ConnectionError); constmix: 3 and 4 interfaces with one leaf element at a "
+               "time holding output Signal|Const and every input Signal|matching Const|mismatching Const, in every argument "
+               "order (accepted cases: statement map vs oracle + simulation of first/last order; others: ConnectionError, "
+               "nothing added); every single-point corruption (missing "
                "member, width, init, second output, constants, object-level width/init, dimensions) of every member / leaf of "
                "every interface; component metadata of sig and sig.flip() compared with the expected document and the "
                "published schema. non-trivial = tree has a signature member or an array dimension")
@@ -885,7 +1011,8 @@ def run(rep):
                 "leaf_follow_checks", "leaf_idle_checks", "leaves_flattened", "constant_leaves", "metadata_documents",
                 "metadata_leaves", "corrupt_missing", "corrupt_width", "corrupt_init", "corrupt_second-output",
                 "corrupt_const-differs", "corrupt_const-vs-signal", "corrupt_obj-width", "corrupt_obj-init", "corrupt_dims",
-                "objects_created", "nested_signature_checks", "route_pairs", "idle_tuples", "idle_leaves", "corrupt_idle-width", "corrupt_idle-init", "corrupt_idle-obj-width",
+                "objects_created", "nested_signature_checks", "route_pairs", "constmix_expect_accept", "constmix_expect_error",
+                "constmix_signal_input_beside_constant_input", "idle_tuples", "idle_leaves", "corrupt_idle-width", "corrupt_idle-init", "corrupt_idle-obj-width",
                 "corrupt_idle-obj-init"):
         rep.require(rep.cov.get(key, 0) > 0, f"{key} never exercised")
     rep.require(rep.cov["trees_depth3"] > 0, "no tree with two nested signature levels")
